@@ -309,7 +309,10 @@ def addPhase2Idx (s : State) (newKey : Key) (m : Mapping) : Option (State × Lis
       if shouldAbsorb r1.1 newKey then
         match releaseAbsorbedKeysIdx r1.1 with
         | none => none
-        | some r2 => some (r2.1, r1.2 ++ r2.2)
+        | some r2 =>
+          -- fix of D5: consume the pass-through keys once more (no index arithmetic: a `retain`)
+          let r3 := addPhase1 r2.1 m
+          some (r3.1, r1.2 ++ r2.2 ++ r3.2)
       else some r1
 
 /-- `add_new_mapping` (parts one, three and four have no index arithmetic) -/
